@@ -258,3 +258,20 @@ package fasthttp
 //@     nohavoc
 //@   end
 //@   ensures[keeps-nothing] hjc.r == nil && hjc.Conn == nil
+
+// hijackConn.Read (C17): the hijack handler reads every byte through the reader handed over by the request loop (bytes
+// the client sent right behind the hijacking request are already buffered there) -- never around it, straight from
+// the connection.
+//@ func hijackConn.Read results n err
+//@   property C17
+//@   mode skeleton
+//@   ghost viaReader int = 0
+//@   ghost direct int = 0
+//@   on call io.Reader.Read -> k, e:
+//@     nohavoc
+//@     effect viaReader = viaReader + 1
+//@   on call net.Conn.Read -> k, e:
+//@     nohavoc
+//@     effect direct = direct + 1
+//@   end
+//@   ensures[reads-only-through-the-handed-over-reader] direct == 0 && viaReader == 1
